@@ -326,10 +326,13 @@ func (self *AofFile) ReadLock(lock *AofLock) error {
 	if n != int(lockLen)+2 {
 		nn, nerr := self.rbuf.Read(buf[n:64])
 		if nerr != nil {
-			return err
+			return nerr
 		}
 		n += nn
 		if n != int(lockLen)+2 {
+			if n < 64 {
+				return io.EOF
+			}
 			return errors.New("Lock Len error")
 		}
 	}
